@@ -15,6 +15,11 @@ def run(ctx):
     r9 = ctx.rule('R9', 'the concurrency policy (like every configured '
                   'policy) is applied before the items are scheduled', 'EXH')
     shared.policy_hooks_total(ctx, r9)
+    r10 = ctx.rule('R10', 'which item executions count as started, in '
+                   'flight, done, to re-run (truth tables over state x '
+                   'accepted)', 'DT (element predicates)')
+    from mstatic.rules import cmdcalc
+    cmdcalc.with_items_predicates(ctx, r10)
 
 
 def _run(ctx):
